@@ -7,6 +7,7 @@ toolchain go1.23.5
 require (
 	github.com/LiskHQ/lisk-engine v0.0.0
 	github.com/cockroachdb/pebble v0.0.0-20221021145029-f34af25a0187
+	golang.org/x/text v0.14.0
 	pgregory.net/rapid v1.3.0
 )
 
@@ -128,7 +129,6 @@ require (
 	golang.org/x/sync v0.4.0 // indirect
 	golang.org/x/sys v0.15.0 // indirect
 	golang.org/x/term v0.15.0 // indirect
-	golang.org/x/text v0.14.0 // indirect
 	golang.org/x/tools v0.14.0 // indirect
 	google.golang.org/protobuf v1.30.0 // indirect
 	gopkg.in/yaml.v2 v2.4.0 // indirect
